@@ -334,6 +334,62 @@ def run(ctx, res):
                     res.violate(kind="oracle", layer="L2", input=line, expected=repr(want), observed=repr((rc, recs)),
                                 failing_input=True, note="class %s is not listed in known_findings.txt" % kc)
         res.sample({"layer": "L2", "input": outs[0][0], "argv_seen": outs[0][2], "status": outs[0][1]})
+        # ---------- L2w: the same in a world that HAS aliases (the theorems quantify over every world): a quoted or
+        # escaped operator-like argument followed by a word that spells an alias name -- the quoted text must not act
+        # as a stage boundary for the alias pass either (seed C01-alias-pass-ignores-quote-tag-of-pipe)
+        wcases = []
+        for tx in ["|", "||", "&&", ";", "&", ">", "<", "|x", "a|", "(", "`"]:
+            for st in ("sq", "dq", "esc"):
+                if not style_ok(st, tx):
+                    continue
+                for shape in (0, 1, 2):
+                    a = [(st, tx), ("esc", "zz")] if shape == 0 else [("sq", "k"), (st, tx), ("esc", "zz"), (st, tx), ("esc", "zz")] \
+                        if shape == 1 else [(st, tx), ("esc", "zz"), ("dq", "zz")]
+                    wcases.append((a, "plain" if shape != 2 else "pipe"))
+
+        def one_w(case):
+            args, pos = case
+            pre = "alias zz='%s @ ALIASED' ; " % hp
+            line = pre + hp + " @" + "".join(" " + render_arg(s_, t_) for s_, t_ in args)
+            if pos == "pipe":
+                line += " | zz"
+            d = tempfile.mkdtemp(prefix="ww", dir=work)
+            tr = os.path.join(d, "trace")
+            env = dict(os.environ)
+            env.update({"VERIF_TRACE": tr, "HOME": d, "XDG_CONFIG_HOME": d, "PATH": "/usr/bin:/bin"})
+            try:
+                pr = subprocess.run([ctx.cicada, "-c", line], cwd=d, env=env, stdin=subprocess.DEVNULL,
+                                    stdout=subprocess.PIPE, stderr=subprocess.PIPE, timeout=20)
+                rc = pr.returncode
+            except subprocess.TimeoutExpired:
+                rc = "TIMEOUT"
+            recs = []
+            if os.path.exists(tr):
+                for l in open(tr):
+                    kv = dict(f.split("=", 1) for f in l.rstrip("\n").split("\t") if "=" in f)
+                    recs.append([C.dec(a) for a in kv.get("argv", "").split(",")])
+            files = sorted(os.listdir(d))
+            shutil.rmtree(d, ignore_errors=True)
+            return line, rc, recs, files
+
+        with ThreadPoolExecutor(max_workers=C.NCPU) as ex:
+            wouts = list(ex.map(one_w, wcases))
+        res.count("L2w_alias_world", len(wcases))
+        for (args, pos), (line, rc, recs, files) in zip(wcases, wouts):
+            want = [[hp, "@"] + [t for _, t in args]]
+            if pos == "pipe":
+                want.append([hp, "@", "ALIASED"])       # a genuine pipe: the word after it IS a command word
+            if sorted(recs) == sorted(want) and rc == 0 and files in ([], ["trace"]):
+                res.nontrivial("L2w:" + line[-40:])
+                continue
+            kc = known_class(args, pos, "L2")
+            if kc is not None and kc in known:
+                res.known(kc, "class=%s e.g. %s" % (kc, line[-60:]))
+                continue
+            nv += 1
+            if nv <= 6:
+                res.violate(kind="oracle", layer="L2w", input=line, expected=repr(want), observed=repr((rc, recs, files)),
+                            failing_input=True, note="with an alias defined, argv received differs from the written arguments")
     finally:
         os.chdir(cwd0)
         shutil.rmtree(work, ignore_errors=True)
